@@ -352,8 +352,8 @@ def execute(case, trace=False):
                 prof = ans if name == "get_profile" else ans[0]
                 cans = [sorted(prof.candidates), canon.cpmap(prof)]
                 if name == "get_step":
-                    if ans[1] is not e.election_states[r if not use_default else -1]:
-                        viol("answer", f"{desc}: returned state is not the recorded state of that round", rule, op=name)
+                    if canon.cstate(ans[1]) != M.S0[ri]:
+                        viol("answer", f"{desc}: returned state {canon.cstate(ans[1])} is not the recorded state of that round {M.S0[ri]}", rule, op=name)
                 if draw_free:
                     rem = sorted(c for g in M.remaining(ri) for c in g)
                     if sorted(prof.candidates) != rem:
